@@ -355,8 +355,8 @@ ares_status_t ares_dns_name_write(ares_buf_t *buf, ares_llist_t **list,
   size_t                   name_len;
   size_t                   orig_name_len;
   size_t                   pos    = ares_buf_len(buf);
-  ares_array_t            *labels = NULL;
-  char                     name_copy[512];
+  ares_array_t            *labels    = NULL;
+  char                    *name_copy = NULL;
   ares_status_t            status;
 
   if (buf == NULL || name == NULL) {
@@ -368,9 +368,15 @@ ares_status_t ares_dns_name_write(ares_buf_t *buf, ares_llist_t **list,
     return ARES_ENOMEM;
   }
 
-  /* NOTE: due to possible escaping, name_copy buffer is > 256 to allow for
-   *       this */
-  name_len      = ares_strcpy(name_copy, name, sizeof(name_copy));
+  /* NOTE: due to possible escaping the text form of a valid name can be up
+   *       to 4x its wire length, so don't copy into a fixed size buffer which
+   *       would silently truncate (and thus change) the name */
+  name_copy = ares_strdup(name);
+  if (name_copy == NULL) {
+    ares_array_destroy(labels);
+    return ARES_ENOMEM;
+  }
+  name_len      = ares_strlen(name_copy);
   orig_name_len = name_len;
 
   /* Find longest match */
@@ -428,9 +434,10 @@ ares_status_t ares_dns_name_write(ares_buf_t *buf, ares_llist_t **list,
   }
 
   /* Store pointer for future jumps as long as its not an exact match for
-   * a prior entry */
+   * a prior entry.  Names whose (escaped) text form is too long to be tracked
+   * are simply not offered as a compression target, they are still valid. */
   if (list != NULL && (off == NULL || off->name_len != orig_name_len) &&
-      name_len > 0) {
+      name_len > 0 && orig_name_len <= 255) {
     status = ares_nameoffset_create(list, name /* not truncated copy! */, pos);
     if (status != ARES_SUCCESS) {
       goto done; /* LCOV_EXCL_LINE: OutOfMemory */
@@ -441,6 +448,7 @@ ares_status_t ares_dns_name_write(ares_buf_t *buf, ares_llist_t **list,
 
 done:
   ares_array_destroy(labels);
+  ares_free(name_copy);
   return status;
 }
 
